@@ -78,13 +78,13 @@ def c39(c):
     if c.violations:
         return c.finish(rule="stopped after the first failing stage")
     # 3. spec -> code: random builder histories over keys with up to 6 members
-    beh = _simulate(c, "MCSig", "MCSig_sim.cfg", 4000 if thorough else 300, 16, "TLC -simulate MCSig_sim.cfg")
+    beh = _simulate(c, "MCSig", "MCSig_sim.cfg", 4000 if thorough else 150, 16, "TLC -simulate MCSig_sim.cfg")
     replay(beh, "TLC -simulate builder histories (keys up to 6 members, 8 slots)")
     if c.violations:
         return c.finish(rule="stopped after the first failing stage")
 
     # 4. code -> spec: seeded driver (nested keys, 0..7 members, perturbed signature trees) validated by TraceSig
-    ntr = 2500 if thorough else 250
+    ntr = 2500 if thorough else 150
     tr = os.path.join(c.scratch, "trace-sig.ndjson")
     targs = ["trace-sig", "-out", tr, "-n", ntr]
     rep = vf.run_harness(BIN, targs, env={"VERIF_SEED": c.seed})
@@ -225,7 +225,7 @@ def c40(c):
         return c.finish(rule="stopped after the first failing stage")
 
     # 3. code -> spec: seeded driver, validated by TraceKeybase
-    ntr, steps = (160, 40) if thorough else (32, 25)
+    ntr, steps = (160, 40) if thorough else (24, 25)
     tr = os.path.join(c.scratch, "trace-keybase.ndjson")
     targs = ["trace-keybase", "-out", tr, "-n", ntr, "-steps", steps, "-variants", "mem,lazy"]
     rep = vf.run_harness(BIN, targs, env={"VERIF_SEED": c.seed}, timeout=5000)
@@ -250,7 +250,7 @@ def c40(c):
         exhaustive=thorough)
 
 
-QUICK_SAMPLE = 14
+QUICK_SAMPLE = 18
 THOROUGH_SAMPLE_T = 90
 
 
